@@ -1145,6 +1145,54 @@ static void sec_auto(int thorough)
 	quarantine_release();
 }
 
+/* Section E2: a table WITHOUT CDS_LFHT_AUTO_RESIZE (flags 0 and ACCOUNTING only) never resizes by itself and never queues
+ * resize work, whatever its node count does (the counter passes powers of two >= 1024 * #split counters both ways). */
+static void sec_noauto(void)
+{
+	static const int fl[2] = { 0, CDS_LFHT_ACCOUNTING };
+	unsigned long N = 40000, k;
+	int v;
+	printf("# section E2: no automatic resize without CDS_LFHT_AUTO_RESIZE\n");
+	for (v = 0; v < 2; v++) {
+		struct cds_lfht *ht;
+		int q0 = qw_resize, rc;
+		quiet = 1;
+		ht = new_table(K_ORDER, 4096, 1, 1UL << 17, fl[v]);
+		quiet = 0;
+		snprintf(cur_op_buf, sizeof cur_op_buf, "table without AUTO_RESIZE (flags=%d): %lu adds then dels", fl[v], N);
+		cur_op = cur_op_buf;
+		wd_arm(60000);
+		capture_mode = 1;	/* a wrongly launched resize is captured, not run on a NULL work queue */
+		for (k = 0; k < N; k++) do_add(ht, k);
+		for (k = 0; k < N; k++) {
+			struct cds_lfht_iter it;
+			struct cds_lfht_node *n;
+			rc = -1;
+			urcu_memb_read_lock();
+			cds_lfht_lookup(ht, hash_key(k), match_key, &k, &it);
+			n = cds_lfht_iter_get_node(&it);
+			if (n) rc = cds_lfht_del(ht, n);
+			urcu_memb_read_unlock();
+			if (rc) ORACLE("%s: key %lu lost before its deletion", cur_op, k);
+			else { keys[k].in = 0; nkeys_in--; }
+			if ((k & 4095) == 4095) urcu_memb_synchronize_rcu();
+		}
+		capture_mode = 0;
+		wd_disarm();
+		if (qw_resize != q0 || npend)
+			ORACLE("%s: %d resize work item(s) were queued although the table was created without CDS_LFHT_AUTO_RESIZE "
+			       "(resize_target=%lu size=%lu)", cur_op, qw_resize - q0 + npend, ht->resize_target, ht->size);
+		if (ht->size != 4096) ORACLE("%s: size changed to %lu", cur_op, ht->size);
+		while (npend) run_pending(ht);
+		printf("# e2 flags=%d queued=%d size=%lu\n", fl[v], qw_resize - q0, ht->size);
+		urcu_memb_synchronize_rcu();
+		quiet = 1;
+		destroy_table(ht);
+		quiet = 0;
+		quarantine_release();
+	}
+}
+
 /* ------------------------------------------------------------------------------------------------
  * Section F: destroy with resizes still queued
  * ---------------------------------------------------------------------------------------------- */
@@ -1402,7 +1450,7 @@ int main(int argc, char **argv)
 	if (!*only || strchr(only, 'B')) sec_lazy(thorough);
 	if (!*only || strchr(only, 'D')) sec_big(thorough);
 	if (!*only || strchr(only, 'F')) { sec_destroy(thorough); sec_destroy_attr(); }
-	if (!*only || strchr(only, 'E')) sec_auto(thorough);
+	if (!*only || strchr(only, 'E')) { sec_auto(thorough); sec_noauto(); }
 	if (!*only || strchr(only, 'G')) sec_conc(thorough);
 	if (!*only || strchr(only, 'L')) sec_lostlaunch();
 	rd_stop = 1;
